@@ -487,6 +487,10 @@ def run(chk, tier):
             ("Display", 'enum S<T> { Lit(T), #[display("-{_0}")] Neg(Box<S<T>>), #[display("({_0} + {_1})")] Add(Box<S<T>>, Box<S<T>>) }', "S<i32>"),
             ("Display", '#[display("{v}{}", next.as_ref().map(|n| n.to_string()).unwrap_or_default())] struct S<T> { v: T, next: Option<Box<S<T>>> }', "S<i32>"),
             ("Display", 'enum S<T, U> { #[display("{_0}")] A(T), #[display("{_0}|{_1}")] B(U, Box<S<T, U>>), #[display("x")] C(::core::marker::PhantomData<(T, U)>) }', "S<i32, i32>"),
+            # ... only the parameters occurring in the recursive field's type are bounded: the other one stays free
+            ("Display", 'enum S<T, U> { #[display("{_0}")] A(T), #[display("{_0}")] B(Box<S<T, u8>>), #[display("c")] C(U) }', "S<i32, NoFmt>"),
+            ("Debug", 'struct S<T, U> { v: T, #[debug(skip)] st: U, next: Option<Box<S<T, u8>>> }', "S<i32, NoFmt>"),
+            ("Debug", 'enum S<T, U, V> { Leaf(T), Node(Vec<S<T, u8, V>>), #[debug("k")] K(U), #[debug("{_0:?}")] L(V) }', "S<i32, NoFmt, i32>"),
             ("Debug", 'struct S<T> { v: T, next: Option<Box<S<T>>> }', "S<i32>"),
             ("Debug", 'enum S<T> { Leaf(T), #[debug("node{_0:?}")] Node(Vec<S<T>>) }', "S<i32>")):
         fn = "assert_impl" if derive == "Display" else "assert_impl_debug"
